@@ -14,6 +14,8 @@ ASSUME MaskLemma  == \A a, m \in Seqs : /\ Num(AndB(a, m)) = R!And(Num(a), Num(m
 ASSUME PrefixLemma == \A p \in 0..W : Num(MaskB(N, p)) = R!PrefixMask(p)
 ASSUME RangeLemma == \A a \in Seqs : \A p \in 0..W : \A x \in Seqs :
                         ContainsB(a, MaskB(N, p), x) <=> R!Contains(R!FromPrefix(Num(a), p), Num(x))
+ASSUME AddLemma == \A a \in Seqs : \A k \in 0..(2 * Radix^N) : /\ Num(AddK(a, k)) = (Num(a) + k) % Radix^N
+                                                               /\ Wraps(a, k) <=> (Num(a) + k >= Radix^N)
 VARIABLE x
 Init == x = 0
 Next == UNCHANGED x
